@@ -11,13 +11,20 @@ Inductive chain_from (tree : index) : block -> list block -> Prop :=
 | cf_nil start : chain_from tree start []
 | cf_cons start b l : tree (b_parent start) = Some b -> chain_from tree b l -> chain_from tree start (b :: l).
 
+Lemma last_indep {A} : forall (l : list A) (d d' : A), l <> [] -> last l d = last l d'.
+Proof.
+  induction l as [|a l IH]; intros d d' Hne; [contradiction|].
+  destruct l as [|c l]; [reflexivity|]. cbn [last]. cbn [last] in IH. apply IH. discriminate.
+Qed.
+
 Lemma chain_snoc tree : forall l start b,
   chain_from tree start l -> tree (b_parent (last l start)) = Some b -> chain_from tree start (l ++ [b]).
 Proof.
   induction l as [|a l IH]; intros start b Hc Hb; cbn [app].
   - cbn [last] in Hb. constructor; [exact Hb | constructor].
   - inversion Hc; subst. constructor; [assumption|]. apply IH; [assumption|].
-    destruct l; cbn [last] in *; exact Hb.
+    destruct l as [|c l]; [exact Hb|].
+    rewrite (last_indep (c :: l) a start); [|discriminate]. exact Hb.
 Qed.
 
 Lemma last_snoc {A} (l : list A) (x d : A) : last (l ++ [x]) d = x.
